@@ -265,6 +265,13 @@ SETS_UNITS = [
      [("IPSet", m, {}) for m in ("iter_cidrs", "__nonzero__", "size", "__len__", "iscontiguous", "iprange", "clear", "copy")] +
      [("IPSet", "__contains__", {"ip": "net"})] +
      [("IPSet", m, {"other": "ipset"}) for m in ("issubset", "issuperset", "__lt__", "__gt__", "__eq__", "__ne__")]),
+    (SETSFILE, "pysrc_sets_ops_gen.v", "sets", SETS_REQ,
+     [(None, "_subtract", {"supernet": "net", "subnets": "list net", "subnet_idx": "int", "ranges": "list rng"}),
+      (None, "_iter_merged_ranges", {"sorted_ranges": "list rng"})] +
+     [("IPSet", m, {"other": "ipset"}) for m in ("intersection", "isdisjoint", "difference", "symmetric_difference")] +
+     [("IPSet", "iter_ipranges", {})]),
+    (SETSFILE, "pysrc_sets_mut_gen.v", "sets", SETS_REQ,
+     [("IPSet", "compact", {}), ("IPSet", "pop", {}), ("IPSet", "update:ipset", {"iterable": "ipset"}), ("IPSet", "union", {"other": "ipset"})]),
 ]
 UNITS += SETS_UNITS
 FILES = FILES + tuple(u[1] for u in SETS_UNITS)
@@ -278,6 +285,15 @@ for _u in SETS_FILES:
     UNIT_NAMES[_u] = {"_sys_maxint": ("int", "ssize_max")}
 # fuel of the while loops of sets.py (the hand model's: Sets.contains_walk runs on Z.to_nat prefixlen + 1)
 FUEL[("IPSet", "__contains__", 1)] = ("supernet._prefixlen", 1)
+FUEL[(None, "_subtract", 1)] = ("len(subnets)", 1)
+for _m in ("intersection", "difference", "symmetric_difference"):       # Sets.inter_loop / diff_loop / symdiff_loop: length a + length b + 1
+    FUEL[("IPSet", _m, 1)] = ("own_len + other_len", 1)
+FUEL[("IPSet", "difference", 2)] = ("own_len", 1)
+FUEL[("IPSet", "symmetric_difference", 2)] = ("own_len", 1)
+FUEL[("IPSet", "symmetric_difference", 3)] = ("other_len", 1)
+# a list parameter that the function appends to and the caller reads afterwards: function -> index of that parameter; the function
+# returns (that list, its value), the call `x = f(.., l)` is `l, x = f(.., l)`
+SETS_OUTPARAM = {"_subtract": 3}
 RESERVED |= set("py_dict_mem py_dict_set py_dict_del py_dict_fromkeys py_dict_update py_dict_eqb py_dict_popitem py_sorted_nets "
                 "py_net_ltb py_index py_list_from py_sum py_cidr_merge_nets py_iprange py_net_of_addr".split())
 
@@ -2237,9 +2253,26 @@ class SetsPrepare(ast.NodeTransformer):
                     setattr(n, name, [ast.copy_location(ast.Pass(), n)])
         return f
 
+    def visit_Return(self, st):
+        st = self.generic_visit(st)
+        v = st.value            # return <dict>.popitem()[0]: the dict loses its last key, which is returned
+        if (isinstance(v, ast.Subscript) and const_int(v.slice) == 0 and isinstance(v.value, ast.Call) and isinstance(v.value.func, ast.Attribute)
+                and v.value.func.attr == "popitem" and not v.value.args and not v.value.keywords and dotted(v.value.func.value) == "self._cidrs"):
+            d = v.value.func.value
+            tgt = ast.Tuple(elts=[_sets_store(d), ast.Name(id="sets_popped", ctx=ast.Store())], ctx=ast.Store())
+            a = ast.copy_location(ast.Assign(targets=[tgt], value=_sets_pseudo("__sets_dict_popitem", [_sets_load(d)], st)), st)
+            return [a, ast.copy_location(ast.Return(value=ast.Name(id="sets_popped", ctx=ast.Load())), st)]
+        return st
+
     def visit_Assign(self, st):
         st = self.generic_visit(st)
         t = st.targets[0] if len(st.targets) == 1 else None
+        v = st.value
+        if (isinstance(v, ast.Call) and isinstance(v.func, ast.Name) and v.func.id in SETS_OUTPARAM and isinstance(t, ast.Name)
+                and not v.keywords and len(v.args) > SETS_OUTPARAM[v.func.id] and isinstance(v.args[SETS_OUTPARAM[v.func.id]], ast.Name)):
+            out = v.args[SETS_OUTPARAM[v.func.id]].id          # x = f(.., l) for an out-parameter l: l, x = f(.., l)
+            st.targets = [ast.copy_location(ast.Tuple(elts=[ast.Name(id=out, ctx=ast.Store()), t], ctx=ast.Store()), t)]
+            return st
         if isinstance(t, ast.Subscript):
             if not (self.place(t.value) and isinstance(st.value, ast.Constant) and st.value.value is True
                     and not isinstance(t.slice, ast.Slice)):
@@ -2303,9 +2336,59 @@ class SetsPrepare(ast.NodeTransformer):
         return st
 
 
+class SetsGenerator(ast.NodeTransformer):
+    """a generator function whose callers consume it at once (`for .. in g(..)`), read as the function that returns the list of
+    what it yields: sets_yield = [] first, `yield e` -> sets_yield.append(e), `return` / the end -> return sets_yield"""
+    def visit_Expr(self, st):
+        if isinstance(st.value, ast.Yield):
+            if st.value.value is None:
+                bad(st, "yield without a value")
+            call = ast.Call(func=ast.Attribute(value=ast.Name(id="sets_yield", ctx=ast.Load()), attr="append", ctx=ast.Load()),
+                            args=[st.value.value], keywords=[])
+            return ast.copy_location(ast.Expr(value=call), st)
+        return st
+
+    def visit_Return(self, st):
+        if st.value is not None:
+            bad(st, "return with a value in a generator")
+        return ast.copy_location(ast.Return(value=ast.Name(id="sets_yield", ctx=ast.Load())), st)
+
+    def visit_Yield(self, n):
+        bad(n, "yield used as an expression")
+
+    def visit_YieldFrom(self, n):
+        bad(n, "yield from")
+
+
+class SetsOutParam(ast.NodeTransformer):
+    def __init__(self, name):
+        self.name = name
+
+    def visit_Return(self, st):
+        if st.value is None:
+            bad(st, "return without a value in a function with an out-parameter")
+        st.value = ast.copy_location(ast.Tuple(elts=[ast.Name(id=self.name, ctx=ast.Load()), st.value], ctx=ast.Load()), st)
+        return st
+
+
 def sets_prepare(f, fn):
     import copy
-    return ast.fix_missing_locations(SetsPrepare(fn).visit(copy.deepcopy(f)))
+    f = copy.deepcopy(f)
+    if any(isinstance(n, (ast.Yield, ast.YieldFrom)) for n in ast.walk(f)):
+        if any(isinstance(n, (ast.FunctionDef, ast.Lambda)) and n is not f for n in ast.walk(f)):
+            bad(f, "generator with a nested function")
+        f = SetsGenerator().visit(f)
+        first = 1 if (f.body and isinstance(f.body[0], ast.Expr) and isinstance(f.body[0].value, ast.Constant)) else 0
+        init = ast.copy_location(ast.Assign(targets=[ast.Name(id="sets_yield", ctx=ast.Store())], value=ast.List(elts=[], ctx=ast.Load())), f.body[first])
+        last = ast.copy_location(ast.Return(value=ast.Name(id="sets_yield", ctx=ast.Load())), f.body[-1])
+        last.lineno = last.end_lineno = f.end_lineno
+        f.body = f.body[:first] + [init] + f.body[first:] + [last]
+    if f.name in SETS_OUTPARAM and fn is None:
+        a = f.args.args[SETS_OUTPARAM[f.name]].arg
+        if not isinstance(f.body[-1], ast.Return):
+            bad(f, "function with an out-parameter that may fall off its end")
+        f = SetsOutParam(a).visit(f)
+    return ast.fix_missing_locations(SetsPrepare(fn).visit(f))
 
 
 def _sets_on(self):
@@ -2330,6 +2413,26 @@ def sets_rhs(self, node, env):
         bad(node, "attribute %s of an IPSet" % node.attr)
     if isinstance(node, ast.Call):
         return sets_call(self, node, env)
+    if isinstance(node, ast.ListComp) and len(node.generators) == 1:
+        g = node.generators[0]                              # [e for x in xs] with a pure e: map (fun x => e) xs
+        if g.ifs or g.is_async or not isinstance(g.target, ast.Name) or g.target.id in env:
+            bad(node, "list comprehension other than [e for x in xs] with a fresh x")
+        (tl, l) = self.ex(g.iter, env)
+        elem = tl[1].find().t if is_list(tl) else None
+        if elem is None:
+            bad(node, "comprehension over %s" % show(tl))
+        cn, lenv = self.bind_local(g.target, g.target.id, elem, env, g.iter)
+        self.nohoist += 1
+        (te, e) = self.ex(node.elt, lenv)
+        self.nohoist -= 1
+        if not is_value(te):
+            bad(node, "comprehension element of kind %s" % show(te))
+        return (("list", Cell(te)), "(map (fun %s => %s) %s)" % (cn, e, l))
+    if isinstance(node, ast.Tuple) and node.elts and isinstance(node.ctx, ast.Load):
+        items = [self.ex(x, env) for x in node.elts]        # a tuple of values; an IPAddress component is its pair (version, value)
+        if any(ty != "obj" and not is_value(ty) for ty, _ in items):
+            bad(node, "tuple component of kind %s" % [show(ty) for ty, _ in items if ty != "obj" and not is_value(ty)][0])
+        return (("tup", tuple(ty for ty, _ in items)), tuple_term([t[3] if ty == "obj" else t for ty, t in items]))
     if isinstance(node, ast.Subscript):
         snap, pre0 = self.snapshot(), list(self.pre)
         ty, t = self.ex(node.value, env)
@@ -2403,6 +2506,11 @@ def sets_call(self, node, env):
         if name == "__sets_dict_del":
             return ("out", "dict", "(py_dict_del %s %s)" % (d, kt))
         return ("dict", "(%s %s %s)" % ("py_dict_set" if name == "__sets_dict_set" else "py_dict_update", d, kt))
+    if name == "__sets_dict_popitem":
+        (td, d) = self.ex(node.args[0], env)
+        if td != "dict":
+            bad(node, "popitem() of %s" % show(td))
+        return ("out", ("tup", ("dict", "net")), "(py_dict_popitem %s)" % d)
     if name == "__sets_self":
         (td, d) = self.ex(node.args[0], env)
         return ("ipset", d)
@@ -2455,7 +2563,7 @@ def sets_call(self, node, env):
         unify(node, tl, ("list", Cell("net")), "dict.fromkeys")
         return ("dict", "(py_dict_fromkeys %s)" % l)
     if plain and not node.args and ((name == "IPSet" and "IPSet" in self.mod.classes) or (dotted(f) == "self.__class__" and self.recv == "IPSet")):
-        return ("ipset", "[]")                          # IPSet(): __init__ with iterable None assigns {}
+        return ("ipset", "(@nil net)")                  # IPSet(): __init__ with iterable None assigns {}
     if name == "cidr_merge" and plain and len(node.args) == 1 and self.mod.imports.get(name) == "netaddr.ip.cidr_merge":
         (tl, l) = self.ex(node.args[0], env)            # not translated: the hand model (SrcPreludeSplitter.py_cidr_merge); a dict = its keys
         if tl != "dict":
@@ -2477,8 +2585,43 @@ def sets_call(self, node, env):
         r = self.mod.lookup("IPSet", f.attr)            # x.m(..) for an IPSet x other than self
         if not r or r[2] or node.keywords:
             bad(node, "call of %s.%s" % (f.value.id, f.attr))
-        return self.generated(node, "IPSet", f.attr, env[f.value.id][1], [self.ex(x, env) for x in node.args])
+        return sets_method_call(self, node, f.attr, env[f.value.id][1], [self.ex(x, env) for x in node.args])
+    if (self.recv == "IPSet" and isinstance(f, ast.Attribute) and dotted(f) == "self." + f.attr and f.attr != "__class__" and plain
+            and not sets_listed("IPSet", f.attr) and sets_variants(f.attr)):
+        k = len(STATEVARS["IPSet"])                     # self.m(..) for a method translated in variants (by the type of its argument)
+        return sets_method_call(self, node, f.attr, " ".join(self.ex(x, env)[1] for x in node.args[:k]), [self.ex(x, env) for x in node.args[k:]])
     return None
+
+
+def sets_listed(recv, name):
+    return any(w[:2] == (recv, name) for u in SETS_UNITS for w in u[4])
+
+
+def sets_variants(name):
+    return [w[1] for u in SETS_UNITS for w in u[4] if w[0] == "IPSet" and w[1].partition(":")[0] == name and ":" in w[1]]
+
+
+def sets_method_call(self, node, name, state, args):
+    """call of IPSet method `name` on the IPSet `state`: the variant `name:<type of the first argument>` if the method is
+    translated in variants; missing trailing arguments take the (int constant) defaults of the definition"""
+    if not sets_listed("IPSet", name):
+        ty = args[0][0] if args else "none"
+        v = "%s:%s" % (name, ty if isinstance(ty, str) else ty[0])
+        if v not in sets_variants(name):
+            bad(node, "call of IPSet.%s with %s: no such variant is translated" % (name, show(ty)))
+        name = v
+    d = self.tr.get("IPSet", name, node)
+    dflt = d.f.args.defaults
+    params = d.f.args.args[len(d.f.args.args) - len(d.params):]
+    for i in range(len(args), len(d.params)):
+        j = i - (len(params) - len(dflt))
+        if j < 0 or const_int(dflt[j]) is None:
+            bad(node, "call of IPSet.%s without argument %s, which has no int default" % (name, params[i].arg))
+        args = args + [("int", "%d" % const_int(dflt[j]))]
+    r = self.generated(node, "IPSet", name, state, args)
+    if d.mutating and not d.valued:
+        return (r[0], "ipset", r[2]) if r[0] == "out" else ("ipset", r[1])      # the new state of that IPSet
+    return r
 
 
 def sets_stmt(self, stmts, env, k, after):
@@ -2493,6 +2636,35 @@ def sets_stmt(self, stmts, env, k, after):
             bad(s, "assignment of %s to _cidrs" % show(r[1] if r[0] == "out" else r[0]))
         cn, env = self.bind_local(s, x, "ipset", env, s.value)
         return self.wrap(pre, ("bind", cn, r[2], go(env)) if r[0] == "out" else (go(env) if r[1] == cn else ("let", cn, r[1], go(env))))
+    if isinstance(s, ast.Assign) and len(s.targets) == 1 and isinstance(s.targets[0], ast.Tuple) and all(isinstance(x, ast.Name) for x in s.targets[0].elts):
+        snap, pre0 = self.snapshot(), list(self.pre)
+        r = self.rhs(s.value, env)
+        ty = r[1] if r[0] == "out" else r[0]
+        if isinstance(ty, tuple) and ty[0] == "tup" and len(ty[1]) == len(s.targets[0].elts) and "obj" in ty[1]:
+            pre, names = self.take_pre(), []            # a, b = e where a component is an IPAddress object (a pair)
+            for x, xty in zip(s.targets[0].elts, ty[1]):
+                cn, env = self.bind_local(x, x.id, xty, env, s.value)
+                if xty == "obj":
+                    env[x.id] = ("obj", self.objvar(cn))
+                names.append(cn)
+            return self.wrap(pre, ("bind" if r[0] == "out" else "let", pattern(names), r[2] if r[0] == "out" else r[1], go(env)))
+        self.restore(snap)
+        self.pre = pre0
+    if isinstance(s, ast.If):
+        t, neg = s.test, False
+        if isinstance(t, ast.UnaryOp) and isinstance(t.op, ast.Not):
+            t, neg = t.operand, True
+        if (isinstance(t, ast.Call) and dotted(t.func) == "isinstance" and len(t.args) == 2 and not t.keywords and isinstance(t.args[0], ast.Name)
+                and t.args[0].id in self.ptypes_declared and t.args[0].id in env and isinstance(env[t.args[0].id][0], str)
+                and env[t.args[0].id][0] in SETS_CLASS_OF):
+            # isinstance(<parameter>, C) / (C1, C2): decided by the declared type of the parameter
+            cs = t.args[1].elts if isinstance(t.args[1], ast.Tuple) else [t.args[1]]
+            if any(not isinstance(c, ast.Name) or c.id in env or not (c.id in self.mod.classes or (self.mod.imports.get(c.id) or "").startswith("netaddr.")) for c in cs):
+                bad(s, "isinstance against something other than classes of netaddr")
+            if any(c.id == "_int_type" for c in cs) and self.mod.imports.get("_int_type") != "netaddr.compat._int_type":
+                bad(s, "_int_type is not netaddr.compat._int_type")
+            yes = (SETS_CLASS_OF[env[t.args[0].id][0]] in [c.id for c in cs]) != neg
+            return self.block((s.body if yes else s.orelse) + rest, env, k, after)
     if (isinstance(s, ast.Try) and len(s.handlers) == 1 and dotted(s.handlers[0].type) == "AttributeError" and not s.orelse and not s.finalbody
             and "AttributeError" not in env and not self.mod.toplevel("AttributeError")
             and all((_is_cidrs(n) and sets_ipset_var(self, n.value, env)) for st in s.body for n in ast.walk(st) if isinstance(n, ast.Attribute))
@@ -2526,6 +2698,16 @@ def sets_owned(self, x):
 
 # ---- SRCA hooks
 _is_value0 = is_value
+_parse_type0 = parse_type
+# the class a declared parameter type stands for (IPGlob, the subclass of IPRange, is not told apart: `rng` is not used for
+# isinstance tests against IPGlob)
+SETS_CLASS_OF = {"ipset": "IPSet", "net": "IPNetwork"}
+
+
+def parse_type(s):
+    if s == "list rng":          # a list of (version, first, last) tuples
+        return ("list", Cell(("tup", ("int", "int", "int"))))
+    return _parse_type0(s)
 
 
 def is_value(t):
